@@ -70,7 +70,7 @@ func genPrefix(r *hlib.Rand) netip.Prefix {
 	}
 }
 
-// keys under which two entries would denote the same network (current and legacy normal forms)
+// key under which two entries denote the same network (mapped CIDRs are the IPv4 CIDR they map to)
 func netKeys(p netip.Prefix) []string {
 	var ks []string
 	a := p.Addr()
@@ -78,9 +78,6 @@ func netKeys(p netip.Prefix) []string {
 		ks = append(ks, netip.PrefixFrom(a.Unmap(), p.Bits()-96).Masked().String())
 	} else {
 		ks = append(ks, p.Masked().String())
-	}
-	if q := netip.PrefixFrom(a.Unmap(), p.Bits()); q.IsValid() {
-		ks = append(ks, q.Masked().String())
 	}
 	return ks
 }
@@ -142,7 +139,20 @@ func genList(r *hlib.Rand, allowBad bool) ([]string, []netip.Prefix) {
 		add(netip.MustParsePrefix(hlib.Pick(r, "::/0", "::/0", "fd00::1/0")), r.Bool())
 	}
 	if allowBad && r.Chance(1, 12) {
-		toks = append(toks, hlib.Pick(r, "bad=T", "bad=F", hlib.PrefixHex(genPrefix(r))+"=X", hlib.PrefixHex(genPrefix(r))+"=7", "bad=X"))
+		// an entry with an invalid value: its key must not collide with another entry's map key
+		fresh := func() string {
+			for {
+				p := genPrefix(r)
+				dup := false
+				for _, q := range pfx {
+					dup = dup || q == p
+				}
+				if !dup {
+					return hlib.PrefixHex(p)
+				}
+			}
+		}
+		toks = append(toks, hlib.Pick(r, "bad=T", "bad=F", fresh()+"=X", fresh()+"=7", "bad=X"))
 	}
 	// the implementation iterates a Go map; present the entries in a random order as well
 	for i := len(toks) - 1; i > 0; i-- {
